@@ -614,6 +614,15 @@ class _Env:
                 self.assign(e, x)
         elif isinstance(t, ast.Subscript):
             o = self.ev(t.value)
+            if isinstance(t.slice, ast.Slice):
+                if t.slice.step is not None or not isinstance(o, list):
+                    raise _Abort('slice store on unsupported object')
+                lo = self.ev(t.slice.lower) if t.slice.lower else None
+                hi = self.ev(t.slice.upper) if t.slice.upper else None
+                if not all(x is None or isinstance(x, int) for x in (lo, hi)):
+                    raise _Abort('slice store with non-integer bounds')
+                o[lo:hi] = list(v)
+                return
             k = self.ev(t.slice)
             if isinstance(o, (dict, list)) and is_known(k):
                 try:
